@@ -875,10 +875,62 @@ def check_no_shared_results(ctx, funcs, rule='R6-fresh-values'):
         ctx.holds(rule, ('bisturi', '<package>'), 'no memoised function, no shallow copy of a shared object', 'results are built per call', 0)
 
 
+def check_no_process_wide_container_is_handed_to_a_writer(ctx, rule='R6-fresh-values'):
+    """Round 9.  a module-level container (``NAME = {}`` / ``[]`` / ``dict()``) handed as an
+    argument to a method that stores into that parameter (``Ref.init`` keeps the clone it makes in
+    the ``defaults`` mapping it receives) is written once per process: the object stored for the
+    first packet is found, and reused, by every later one"""
+    repo = ctx.repo
+    consts = {}
+    for mod, info in repo.modules.items():
+        for st in info['tree'].body:
+            if isinstance(st, ast.Assign) and len(st.targets) == 1 and isinstance(st.targets[0], ast.Name):
+                v = st.value
+                if isinstance(v, (ast.Dict, ast.List, ast.Set)) and not (getattr(v, 'keys', None) or getattr(v, 'elts', None)) \
+                        or (isinstance(v, ast.Call) and isinstance(v.func, ast.Name) and v.func.id in ('dict', 'list', 'set') and not v.args and not v.keywords):
+                    consts[st.targets[0].id] = (mod, st)
+    if not consts:
+        return
+
+    def mutated_params(fn, skip_self):
+        out = set()
+        ps = [a.arg for a in fn.args.args]
+        for x in ast.walk(fn):
+            if isinstance(x, ast.Subscript) and not isinstance(x.ctx, ast.Load) and isinstance(x.value, ast.Name) and x.value.id in ps:
+                out.add(ps.index(x.value.id) - (1 if skip_self else 0))
+            elif isinstance(x, ast.Call) and isinstance(x.func, ast.Attribute) and isinstance(x.func.value, ast.Name) and x.func.value.id in ps \
+                    and x.func.attr in ('update', 'setdefault', 'append', 'extend', 'insert', 'add', 'pop', 'clear', 'popitem', 'remove'):
+                out.add(ps.index(x.func.value.id) - (1 if skip_self else 0))
+        return out
+    n = 0
+    for fi in repo.functions.values():
+        if not isinstance(fi.node, ast.FunctionDef):
+            continue
+        local = {x.id for x in ast.walk(fi.node) if isinstance(x, ast.Name) and isinstance(x.ctx, ast.Store)} | {a.arg for a in fi.node.args.args}
+        for c in ast.walk(fi.node):
+            if not (isinstance(c, ast.Call) and isinstance(c.func, ast.Attribute)):
+                continue
+            for i, a in enumerate(c.args):
+                if isinstance(a, ast.Name) and a.id in consts and a.id not in local:
+                    n += 1
+                    m = c.func.attr
+                    writers = [ci.name for ci in repo.classes.values() if m in ci.methods and isinstance(ci.methods[m].node, ast.FunctionDef)
+                               and i in mutated_params(ci.methods[m].node, True)]
+                    st = '%s: %s' % (fi.qual, unparse(c)[:80])
+                    if writers:
+                        ctx.violation(rule, fi, st, 'the module-level container %s is handed to %s.%s, which stores into that parameter: what is stored for the first packet (a clone of the referenced packet, under the field name) is found there and reused by every later packet -- and by packets of other classes with a field of the same name' % (a.id, writers[0], m), c.lineno, witness=True)
+                    else:
+                        ctx.holds(rule, fi, st, 'no implementation of .%s stores into that parameter' % m, c.lineno)
+    ctx.unit('shared_container_args', n)
+
+
 def check(ctx):
+    check_no_process_wide_container_is_handed_to_a_writer(ctx)
     from ..model import check_strategies_read_the_name_at_call_time
     check_strategies_read_the_name_at_call_time(ctx, 'R5-name-at-call-time')
     funcs = runtime_functions(ctx)
+    from ..model import check_conf_dict_holds_no_per_class_tables
+    check_conf_dict_holds_no_per_class_tables(ctx, 'R5-runtime-stateless')
     check_fixture(ctx)
     check_statelessness(ctx, funcs)
     check_freshness(ctx)
